@@ -69,6 +69,14 @@ def build(E):
     M[(PCTX, "use_certificate_file")] = may_fail("use_certificate_file", "SSL.Error")
     M[(PCTX, "use_privatekey_file")] = may_fail("use_privatekey_file", "SSL.Error")
     M[(PCTX, "set_verify")] = lambda ctx, c, a, k: NONE
+    # other pyOpenSSL Context methods: none of them establishes a protocol floor (OP_NO_* option masks included: a mask that
+    # happens to exclude the old versions today is not "minimum version set to TLS 1.2" - the floor must be stated as such)
+    for meth in ("set_options", "set_cipher_list", "set_session_id", "set_mode", "set_timeout", "set_alpn_protos", "set_verify_depth", "set_default_verify_paths",
+                 "set_session_cache_mode", "set_tmp_ecdh", "set_info_callback", "set_alpn_select_callback", "set_ocsp_server_callback", "set_keylog_callback"):
+        M[(PCTX, meth)] = (lambda ctx, c, a, k: NONE)
+    for meth in ("load_verify_locations", "use_certificate_chain_file", "check_privatekey", "use_certificate", "use_privatekey", "load_tmp_dh", "add_client_ca"):
+        M[(PCTX, meth)] = may_fail(meth, "SSL.Error")
+    M[(PCTX, "set_max_proto_version")] = lambda ctx, c, a, k: (ctx.setf(c, "g_max", a[0]), NONE)[1]
 
     def std_ok(ctx, c):
         v = ctx.force(ctx.getf(c, "minimum_version")) if isinstance(c, VObj) and c.cls == SSLCTX else None
